@@ -11,7 +11,7 @@ CFG = dict(
          "Flush at once / looks at the file / or calls Flush while it is still stalled (3 fixed cases + ~12% of script steps); 25% multi-chunk clients (2/3/5/8 chunks, model = implementation only), 12% use after Close; the schedule the real "
          "goroutine took is read back exactly (queue length accessor + gate length) and replayed step by step by the Lean model. LJH22/LJH3/OFF (3 fixed + "
          "~2.5%): the REAL ljh.Writer / ljh.Writer3 / off.Writer writing to a named pipe with a 4 KiB kernel buffer that the harness drains or not, "
-         "until the 1000-deep queue is full and 1..60 records have been rejected per stall phase, then resume, Flush, Close; expected record bytes come "
+         "until the 1000-deep queue is full and 1..60 records have been rejected per stall phase, then resume, Flush, Close; three directed cases per quick run (3 s; 36 per thorough run, 3..5 s) keep the pipe stalled for SECONDS after Close (30%: also after a Flush) was issued with the queue full — longer than any plausible give-up timeout; they run concurrently in different worker chunks; expected record bytes come "
          "from a second never-stalled writer of the same type. PD (2 fixed + ~0.5%): records pushed through the real ProcessSegments -> processSegment -> "
          "PublishData with the channel's LJH2.2/LJH3/OFF writers on stalled pipes. The oracle chkC07 (file at every Flush/Close return = header ++ whole "
          "accepted records in order; prefix otherwise) judges the real observations. Non-trivial = the queue was full at least once (a Write rejected); "
